@@ -21,7 +21,7 @@ MANIFEST = {
     'technique': 'runtime monitoring: identity-graph assertions (is, not ==) on parsed results vs model-derived expectation',
 }
 LEVEL = 'exploration'
-BUDGET = {'quick': 40, 'thorough': 360}
+BUDGET = {'quick': 60, 'thorough': 360}
 RULE = ('seeded random documents biased to aliases / schemas / enum types / composite and self references, each in 3 (quick) or '
         '5 (thorough) addressing+style vectors, plus a labelled class with equal bare names across schemas; a case = one '
         '(document, style); distinct by text hash; non-trivial = has a reference, index, enum-typed column or group')
@@ -139,6 +139,9 @@ def check_identity(sh, doc, db, suite, case):
 
 def biased_doc(rng, size, samebare=False):
     doc = gen.random_doc(rng, size, 'plain', props=False)
+    for t in doc.tables:
+        if t.alias == t.name:
+            t.alias = None          # this check builds its own alias / bare-name clashes below
     # bias: more aliases, reuse an enum name across schemas, self/composite refs come from random_doc
     for t in doc.tables:
         if t.alias is None and rng.random() < 0.4:
